@@ -233,7 +233,7 @@ def collision_universe(rng):
 
 def gen_cases(rng, tier):
     cases = []
-    n_uni = 8 if tier == "quick" else 200
+    n_uni = 14 if tier == "quick" else 200
     per = 30 if tier == "quick" else 120
     for _ in range(n_uni):
         u = gen_universe(rng, force_falsy=rng.random() < 0.4)
